@@ -29,6 +29,59 @@ pub struct FragCase {
     pub pset_len: (u16, u16, u16),
     pub ops: Vec<FGene>,
     pub const_interval: Option<u32>,
+    /// true: sample payloads are framed the way a real caller's are (length-prefixed NAL units with in-band parameter sets
+    /// on sync samples for H.264/H.265, OBU sequences for AV1, a keyframe header for VP9); false: opaque tagged bytes
+    #[serde(default)]
+    pub realistic: bool,
+}
+
+/// A sample payload in the codec's MP4 framing (the fragmented muxer stores whatever it is given, unchanged).
+pub fn realistic_payload(codec: u8, size: usize, sync: bool, tag: u64) -> Vec<u8> {
+    let body = filler(size.max(1), tag, 0);
+    let mut out = Vec::new();
+    let mut nal = |hdr: &[u8], payload: &[u8]| {
+        out.extend_from_slice(&((hdr.len() + payload.len()) as u32).to_be_bytes());
+        out.extend_from_slice(hdr);
+        out.extend_from_slice(payload);
+    };
+    match codec % 4 {
+        0 => {
+            if sync {
+                nal(&[0x67], &[0x42, 0x00, 0x1e, 0x8d, 0x68, 0x50, (tag & 0x7f) as u8 | 0x10]);
+                nal(&[0x68], &[0xce, 0x3c, 0x80]);
+                nal(&[0x65], &body);
+            } else {
+                nal(&[0x41], &body);
+            }
+        }
+        1 => {
+            if sync {
+                nal(&[0x40, 0x01], &[0x0c, 0x01, 0xff, 0xff, 0x01, 0x60]);
+                nal(&[0x42, 0x01], &[0x01, 0x01, 0x60, 0x10, 0x10, 0x90, 0x11, (tag & 0x7f) as u8 | 0x10]);
+                nal(&[0x44, 0x01], &[0xc1, 0x72, 0xb4]);
+                nal(&[0x26, 0x01], &body);
+            } else {
+                nal(&[0x02, 0x01], &body);
+            }
+        }
+        2 => {
+            if sync {
+                out.extend_from_slice(&obu(1, false, 0, true, 0, &Av1Seq::simple().payload()));
+            }
+            let mut b = body;
+            b[0] &= 0x1f;
+            out.extend_from_slice(&obu(6, false, 0, true, 0, &b));
+        }
+        _ => {
+            if sync {
+                out.extend_from_slice(&[0x82, 0x49, 0x83, 0x42, 0x00, 0x27, 0xf0, 0x1d, 0xf6]);
+            } else {
+                out.push(0x86);
+            }
+            out.extend_from_slice(&body);
+        }
+    }
+    out
 }
 
 pub fn fcfg(c: &FragCase) -> FCfg {
@@ -88,7 +141,8 @@ pub fn lower(c: &FragCase) -> LoweredFrag {
                     _ => cur,
                 };
                 let pts = if *cts >= 0 { dts + *cts as u64 } else { dts.saturating_sub((-(*cts as i64)) as u64) };
-                let data = filler(*size as usize, (3u64 << 60) | (n << 20) | *size as u64, 0);
+                let tag = (3u64 << 60) | (n << 20) | *size as u64;
+                let data = if c.realistic { realistic_payload(c.codec, *size as usize, *sync, tag) } else { filler(*size as usize, tag, 0) };
                 ops.push(FOp::Write { pts, dts, data, sync: *sync });
                 n += 1;
             }
@@ -317,14 +371,16 @@ pub fn frag_case_strategy(max_ops: usize) -> impl Strategy<Value = FragCase> {
         prop_oneof![3 => 16u16..4097, 1 => 1u16..=65535],
         prop_oneof![3 => 16u16..2161, 1 => 1u16..=65535],
         (
-            prop_oneof![4 => 0u16..40, 1 => 0u16..=65535],
-            prop_oneof![4 => 0u16..40, 1 => 0u16..=65535],
+            // empty parameter sets are legal for a directly built FragmentConfig (a caller that only has in-band ones)
+            prop_oneof![4 => 0u16..40, 1 => 0u16..=65535, 1 => Just(0u16)],
+            prop_oneof![4 => 0u16..40, 1 => 0u16..=65535, 1 => Just(0u16)],
             prop_oneof![4 => 0u16..40, 1 => 0u16..=65535],
         ),
         prop_oneof![19 => vec(fgene_strategy(), 0..=max_ops), 1 => vec(fgene_strategy(), max_ops * 8..=max_ops * 16)],
-        proptest::option::weighted(0.3, prop_oneof![Just(3000u32), Just(3003u32), Just(1500u32), 1u32..100000]),
+        (proptest::option::weighted(0.3, prop_oneof![Just(3000u32), Just(3003u32), Just(1500u32), 1u32..100000]), any::<bool>()),
     )
-        .prop_map(|(codec, via_builder, start, width, height, pset_len, ops, const_interval)| FragCase {
+        .prop_map(|(codec, via_builder, start, width, height, pset_len, ops, (const_interval, realistic))| FragCase {
+            realistic,
             codec,
             via_builder,
             start,
@@ -340,7 +396,7 @@ pub fn frag_case_strategy(max_ops: usize) -> impl Strategy<Value = FragCase> {
 /// Fixed list of long / large sequences (counts beyond 255 / 4 096 / 65 535, samples beyond 1 MiB, hundreds of flushes).
 pub fn long_cases() -> Vec<FragCase> {
     let w = |ddts: u32, size: u32, sync: bool| FGene::Write { ddts, cts: 0, size, sync, back: None };
-    let base = |ops: Vec<FGene>, codec: u8| FragCase { codec, via_builder: codec % 2 == 0, start: 0, width: 640, height: 480, pset_len: (10, 4, 6), ops, const_interval: None };
+    let base = |ops: Vec<FGene>, codec: u8| FragCase { codec, via_builder: codec % 2 == 0, start: 0, width: 640, height: 480, pset_len: (10, 4, 6), ops, const_interval: None, realistic: codec % 2 == 1 };
     let mut v = Vec::new();
     // one segment with 70 000 samples
     let mut ops: Vec<FGene> = (0..70_000u32).map(|i| w(3000, 1 + (i % 5), i % 30 == 0)).collect();
